@@ -114,7 +114,11 @@ def install_markers(state):
 
         def call(self, _orig=orig, _kind=kind):
             OPLOG.append((_kind, "call_begin", None))
-            out = _orig(self)
+            try:
+                out = _orig(self)
+            except Exception:
+                OPLOG.append((_kind, "call_aborted", None))
+                raise
             OPLOG.append((_kind, "call_end", state["snapshot"]()))
             return out
 
@@ -216,6 +220,12 @@ def judge_run(rec: Rec, oplog, wit0, driver):
         if op == "call_begin":
             in_call[kind] = True
             continue
+        if op == "call_aborted":
+            # the observer's call raised (a user field failed): not a completed call; what the file holds is judged at
+            # the next completed one
+            in_call[kind] = False
+            rec.count("observer_calls_aborted_by_a_failing_field")
+            continue
         if op in ("call_end", "header_end"):
             in_call[kind] = False
             wit = {**wit0, "file": kind, "op_index": i}
@@ -237,6 +247,12 @@ def judge_run(rec: Rec, oplog, wit0, driver):
                     rec.viol("C16/log/not-one-line-per-call", f"log has {len(lines) - 1} complete lines after {rows['log']} calls (+header={header_done})", wit)
                 if done["log"] and not m.content.startswith(done["log"][-1]):
                     rec.viol("C16/log/earlier-lines-changed", "earlier log lines changed", wit)
+                if header_done and len(lines) >= 3:
+                    # every row is one complete record: as many columns as the header announces
+                    ncol = len(lines[0].split())
+                    bad = [k for k, ln in enumerate(lines[1:-1], start=1) if len(ln.split()) != ncol]
+                    if bad:
+                        rec.viol("C16/log/row-not-one-complete-record", f"log line {bad[0]} has {len(lines[bad[0]].split())} columns, the header announces {ncol}: {lines[bad[0]][:120]!r}", wit)
                 done["log"].append(m.content)
             elif kind == "traj":
                 try:
@@ -314,13 +330,34 @@ def run_model(spec, rec):
     state["snapshot"] = lambda: {"step": int(mc.step_count), "natoms": len(mc.atoms)}
     install_markers(state)
     wit0 = {"driver": spec["driver"], "logging_interval": spec["li"], "declared_mode": spec.get("fmode", "a"), "seed": seed, "steps": spec["steps"]}
+    failing = spec.get("fmode", "a") == "a" and spec["li"] == 1 and mc.default_logger is not None
+    if failing:
+        # a user field that fails now and then (a calculator-backed quantity that is not available on some steps): the
+        # script catches the error and goes on; every completed call must still leave one complete record
+        calls = {"n": 0}
+
+        def flaky():
+            calls["n"] += 1
+            if calls["n"] in (3, 4, 8):
+                raise RuntimeError("value not available on this step")
+            return float(calls["n"])
+
+        mc.default_logger.add_field("Flaky", flaky, "{:>10.3f}")
     try:
         # split the run to exercise repeated irun entries as well; every other shard starts with a zero-length call
         # (dump the initial state, then run): header and step-0 records must still be there exactly once
         if spec.get("fmode", "a") == "w" or spec["li"] == 3:
             mc.run(0)
-        mc.run(spec["steps"] // 2)
-        mc.run(spec["steps"] - spec["steps"] // 2)
+        for part in (spec["steps"] // 2, spec["steps"] - spec["steps"] // 2):
+            target = int(mc.step_count) + part
+            for _attempt in range(8):
+                try:
+                    mc.run(target - int(mc.step_count))
+                    break
+                except RuntimeError as ex:
+                    if not failing or "not available" not in str(ex):
+                        raise
+                    rec.count("runs_continued_after_a_failing_field")
     except Exception as ex:  # noqa: BLE001
         rec.viol(f"C16/run-raised/{type(ex).__name__}", f"run with observers raised {type(ex).__name__}: {ex}"[:300], wit0)
         return
